@@ -16,7 +16,7 @@ pub fn def() -> PropDef {
         nontrivial,
         rule: "client programs mixing submissions through the owning address and derived handles (other clients) with join / consume / consume_sync / detach / drop-then-join, join futures created early and awaited late, repeated and racing joins, a concurrent stop from another client, and in a quarter of the runs a failure (started error, panic, timeout failure, task cancellation); x seeded schedules; the joined value is compared with the fold of the log; non-trivial = a join was in flight while another client submitted or stopped, or joins were repeated; distinct = distinct order of client-op and callback events",
         needed_probes: &["c17_value_checked", "c17_second_join", "c17_failed_join", "c17_detached_checked", "c17_join_raced"],
-        quick_runs: 100_000,
+        quick_runs: 200_000,
         thorough_runs: 2_000_000,
         block: 1,
         flavours: &["tokio"],
